@@ -81,6 +81,9 @@ def run(chk):
 
     nnf = lambda xs, k: nn.nearest_neighbor(xs, max_edits=k)  # noqa
     nnpos = lambda xs, k: nn.nearest_neighbor(xs, k)  # noqa
+    # every parameter passed positionally, in the documented order (argument forwarding inside the wrapper)
+    nnallpos = lambda xs, k: nn.nearest_neighbor(xs, k, None, 1, None, float("inf"), "triplets", None)  # noqa
+    symprog = lambda xs, k: nn.symdel(xs, k, None, 1, None, float("inf"), "triplets", None, True)  # noqa
     # all strings of the exhaustive pools in one call
     for alpha, pool in pools:
         for k in (1, 2, 3):
@@ -94,6 +97,8 @@ def run(chk):
         for k in (1, 2, 3, 5):
             add("symdel|corner", xs, k)
             add("nearest_neighbor|corner", xs, k, model=False, fn=nnpos)
+            add("nearest_neighbor-positional|corner", xs, k, model=False, fn=nnallpos)
+            add("symdel-progress|corner", xs, k, model=False, fn=symprog)
     # random sub-collections with repetition
     for _ in range(150 if not thorough else 1500):
         alpha, pool = rng.choice(pools)
